@@ -788,7 +788,7 @@ Proof. vm_compute. splits; reflexivity. Qed.
 (** C19-F4: the rule set was read and parsed, then os.Stat fails *)
 Definition guard_F4 (f : fixes) (e : fs_event) : bool :=
   negb (fx4 f) &&
-  match op_class (fe_bits e), fe_read e with
+  match op_class f (fe_bits e), fe_read e with
   | FsWrite, RdParsed _ => negb (fe_stat_ok e)
   | _, _ => false
   end.
@@ -797,7 +797,7 @@ Theorem fs_exit_iff f st e s :
   fs_changed f st e = FsExit s <-> (s = SStatNil /\ guard_F4 f e = true).
 Proof.
   unfold fs_changed, guard_F4, fs_deleted.
-  destruct (op_class (fe_bits e)); simpl.
+  destruct (op_class f (fe_bits e)); simpl.
   - destruct (fe_read e); simpl;
       try (rewrite andb_false_r; split; [destruct st; try destruct (fe_proc_ok e); discriminate|intros [_ H]; discriminate]).
     destruct (fe_stat_ok e); simpl.
@@ -818,7 +818,7 @@ Theorem fs_total f st e : guard_F4 f e = false -> spec_fs_ok st (fs_changed f st
 Proof.
   intros G. destruct (fs_changed f st e) as [r|s] eqn:E; simpl.
   - unfold fs_changed, fs_deleted in E.
-    destruct (op_class (fe_bits e)).
+    destruct (op_class f (fe_bits e)).
     + destruct (fe_read e);
         try (destruct st; try destruct (fe_proc_ok e); inversion E; simpl; congruence).
       destruct (negb (fe_stat_ok e)).
@@ -857,3 +857,189 @@ Definition success (status : Z) : bool := (Z.leb 200 status && Z.ltb status 300)
 Theorem request_panic_is_non_success h :
   (exists status, recovery_mw h = status) /\ (forall k, h = Panicked k -> success (recovery_mw h) = false).
 Proof. split; [eexists; reflexivity|intros k ->; destruct k; reflexivity]. Qed.
+
+(** * The repaired loaders are total: with the repairs switched on the guards are empty *)
+
+(** ** F6: the repaired chain building terminates *)
+Definition unused (used : list cert) (c : cert) : bool := negb (cert_in c used).
+
+Lemma filter_length_le {A} (p : A -> bool) l : length (filter p l) <= length l.
+Proof. induction l as [|x r IH]; simpl; [lia|]. destruct (p x); simpl; lia. Qed.
+
+Lemma filter_length_lt {A} (p q : A -> bool) l c :
+  In c l -> p c = true -> q c = false -> (forall x, q x = true -> p x = true) ->
+  length (filter q l) < length (filter p l).
+Proof.
+  intros Hin Hp Hq Hsub. induction l as [|x r IH]; [destruct Hin|].
+  assert (Hle : forall l', length (filter q l') <= length (filter p l')).
+  { induction l' as [|y r' IH']; simpl; [lia|].
+    destruct (q y) eqn:Q; [rewrite (Hsub y Q); simpl; lia|destruct (p y); simpl; lia]. }
+  simpl. destruct Hin as [->|Hin].
+  - rewrite Hp, Hq. simpl. specialize (Hle r). lia.
+  - specialize (IH Hin). destruct (q x) eqn:Q; [rewrite (Hsub x Q); simpl; lia|destruct (p x); simpl; lia].
+Qed.
+
+Lemma cert_in_cons_self c l : cert_in c (c :: l) = true.
+Proof. unfold cert_in. simpl. rewrite Nat.eqb_refl. reflexivity. Qed.
+
+Lemma unused_cons x c used : unused (c :: used) x = true -> unused used x = true.
+Proof.
+  unfold unused, cert_in. simpl. intros H. apply negb_true_iff in H. apply orb_false_iff in H.
+  destruct H as [_ H]. rewrite H. reflexivity.
+Qed.
+
+Lemma build_chain_fixed_terminates pool : forall fuel rchain child,
+  length (filter (unused (child :: rchain)) pool) < fuel ->
+  build_chain true fuel pool rchain child <> None.
+Proof.
+  induction fuel as [|f IH]; intros rchain child Hm; [lia|].
+  simpl. destruct (next_issuer true pool (child :: rchain) child) as [c|] eqn:N; [|discriminate].
+  unfold next_issuer in N. apply find_some in N. destruct N as [Hin Hc].
+  apply andb_true_iff in Hc. destruct Hc as [Hu _].
+  apply IH.
+  assert (L : length (filter (unused (c :: child :: rchain)) pool) < length (filter (unused (child :: rchain)) pool)).
+  { apply filter_length_lt with (c := c); auto.
+    - unfold unused. rewrite cert_in_cons_self. reflexivity.
+    - intros x. apply unused_cons. }
+  lia.
+Qed.
+
+Lemma find_chain_fixed pool pub : find_chain true pool pub <> None.
+Proof.
+  unfold find_chain. destruct (find (fun c => Nat.eqb (c_pub c) pub) pool) as [leaf|]; [|discriminate].
+  apply build_chain_fixed_terminates. pose proof (filter_length_le (unused [leaf]) pool). lia.
+Qed.
+
+Lemma verify_fixed_no_panic f ok pool es : fx6 f = true -> forall known s, verify f ok pool es known <> Panic s.
+Proof.
+  intros F. induction es as [|p r IH]; intros known s; simpl; [discriminate|].
+  rewrite F. destruct (find_chain true pool (p_pub p)) as [chain|] eqn:C; [|exfalso; eapply find_chain_fixed; eauto].
+  destruct (negb (is_nil chain) && negb (ok (p_pub p))); [discriminate|].
+  match goal with |- context [existsb ?q known] => destruct (existsb q known) end; [discriminate|].
+  intros H. apply bind_panic in H. destruct H as [H|[a [_ H]]]; [eapply IH; eauto|discriminate].
+Qed.
+
+Lemma ks_of_fixed_no_panic c f i s : fx6 f = true -> ks_of c f i <> Panic s.
+Proof.
+  intros F. unfold ks_of. destruct (match c with Tls => i_path_empty i | _ => false end); [discriminate|].
+  destruct (i_file i) as [bl|]; [|discriminate]. unfold create_key_store. intros H.
+  apply bind_panic in H. destruct H as [H|[[es cs] [_ H]]]; [eapply scan_no_panic; eauto|].
+  apply bind_panic in H. destruct H as [H|[a [_ H]]]; [eapply verify_fixed_no_panic; eauto|].
+  destruct (fx1 f && is_nil a); discriminate.
+Qed.
+
+(** ** F2: the repaired createEntry lets only supported sizes in *)
+Definition pre_ok (p : pre_entry) : bool := size_ok (p_alg p) (p_size p).
+
+Lemma scan_sizes f bl : fx2 f = true -> forall es cs es' cs',
+  scan f bl es cs = Ok (es', cs') -> forallb pre_ok es = true -> forallb pre_ok es' = true.
+Proof.
+  intros F. induction bl as [|b r IH]; intros es cs es' cs'; simpl.
+  - intros H. inversion H. auto.
+  - destruct b as [[[a z pub spki|]|] kid|[c|]|]; try discriminate.
+    + rewrite F. simpl. destruct (size_ok a z) eqn:S; simpl; [|discriminate].
+      intros H Hes. eapply IH; eauto. rewrite forallb_app. rewrite Hes. simpl. unfold pre_ok. simpl. rewrite S. reflexivity.
+    + intros H Hes. eapply IH; eauto.
+Qed.
+
+Lemma verify_sizes f ok pool es : forallb pre_ok es = true -> forall known out,
+  verify f ok pool es known = Ok out -> existsb unsupported out = false.
+Proof.
+  induction es as [|p r IH]; intros Hes known out; simpl.
+  - intros H. inversion H. reflexivity.
+  - simpl in Hes. apply andb_true_iff in Hes. destruct Hes as [Hp Hr].
+    destruct (find_chain (fx6 f) pool (p_pub p)) as [chain|]; [|discriminate].
+    destruct (negb (is_nil chain) && negb (ok (p_pub p))); [discriminate|].
+    match goal with |- context [existsb ?q known] => destruct (existsb q known) end; [discriminate|].
+    intros H. apply bind_ok in H. destruct H as [es' [H1 H2]]. inversion H2. subst out. simpl.
+    rewrite (IH Hr _ _ H1). unfold unsupported. simpl. unfold pre_ok in Hp. rewrite Hp. reflexivity.
+Qed.
+
+Lemma ks_of_fixed_supported c f i es : fx2 f = true -> ks_of c f i = Ok es -> existsb unsupported es = false.
+Proof.
+  intros F. unfold ks_of. destruct (match c with Tls => i_path_empty i | _ => false end); [discriminate|].
+  destruct (i_file i) as [bl|]; [|discriminate]. unfold create_key_store. intros H.
+  apply bind_ok in H. destruct H as [[pes cs] [H1 H]].
+  apply bind_ok in H. destruct H as [es' [H2 H]].
+  destruct (fx1 f && is_nil es'); [discriminate|]. inversion H. subst es'.
+  eapply verify_sizes; [|exact H2]. eapply scan_sizes; eauto.
+Qed.
+
+(** ** F1: the repaired createKeyStore never returns an empty store *)
+Lemma ks_of_fixed_nonempty c f i : fx1 f = true -> ks_of c f i <> Ok [].
+Proof.
+  intros F. unfold ks_of. destruct (match c with Tls => i_path_empty i | _ => false end); [discriminate|].
+  destruct (i_file i) as [bl|]; [|discriminate]. unfold create_key_store. intros H.
+  apply bind_ok in H. destruct H as [[pes cs] [_ H]].
+  apply bind_ok in H. destruct H as [es' [_ H]].
+  rewrite F in H. destruct es'; simpl in H; discriminate.
+Qed.
+
+Lemma guards_empty_when_fixed c f i :
+  fx1 f = true -> fx2 f = true -> fx5 f = true -> fx6 f = true ->
+  guard_F1 c f i = false /\ guard_F2 c f i = false /\ guard_F5 c f i = false /\ guard_F6 c f i = false.
+Proof.
+  intros F1 F2 F5 F6. unfold guard_F1, guard_F2, guard_F5, guard_F6. splits.
+  - destruct (ks_of c f i) as [[|e r]| |s] eqn:K; try apply andb_false_r.
+    exfalso. eapply ks_of_fixed_nonempty; eauto.
+  - destruct c; try reflexivity;
+      (destruct (ks_of _ f i) as [es| |s] eqn:K; try reflexivity;
+       rewrite (ks_of_fixed_supported _ f i es F2 K);
+       destruct (selected (i_keyid i) es); try reflexivity; apply andb_false_r).
+  - destruct c; try reflexivity. rewrite F5. reflexivity.
+  - destruct (ks_of c f i) as [es| |s] eqn:K; try reflexivity.
+    exfalso. eapply ks_of_fixed_no_panic; eauto.
+Qed.
+
+(** C19_reload_total for the repaired tree: NO input at all ends the process *)
+Theorem reload_total_fixed c f st i :
+  fx1 f = true -> fx2 f = true -> fx5 f = true -> fx6 f = true ->
+  spec_reload_ok st (on_changed c f st i).
+Proof.
+  intros F1 F2 F5 F6. destruct (guards_empty_when_fixed c f i F1 F2 F5 F6) as [G1 [G2 [G5 G6]]].
+  apply reload_total; assumption.
+Qed.
+
+Theorem fs_total_fixed f st e : fx4 f = true -> spec_fs_ok st (fs_changed f st e).
+Proof. intros F. apply fs_total. unfold guard_F4. rewrite F. reflexivity. Qed.
+
+Theorem trust_store_total_fixed f strict i : fx7 f = true -> forall s, trust_store f strict i <> Panic s.
+Proof. intros F. apply trust_store_total. unfold guard_F7. rewrite F. reflexivity. Qed.
+
+(** rule sets: with checked assertions (fx3) and the key check of the parser
+    (fx8) the only way left to a panic is a collaborator panicking itself *)
+Theorem ruleset_total_fixed f proxy def st e :
+  fx3 f = true -> fx8 f = true ->
+  (forall rs, ev_parse e = PParsed rs -> forallb oracle_total_rule rs = true) ->
+  spec_rs_ok st (process f proxy def st e).
+Proof.
+  intros F3 F8 O. apply ruleset_total; auto.
+  unfold ev_oracle_total. destruct (ev_parse e) as [rs| |]; auto.
+Qed.
+
+(** ** instances for the tree as it is now ([all_fixes]) *)
+Theorem reload_total_now c st i : spec_reload_ok st (on_changed c all_fixes st i).
+Proof. apply reload_total_fixed; reflexivity. Qed.
+
+Theorem trust_store_total_now strict i s : trust_store all_fixes strict i <> Panic s.
+Proof. apply trust_store_total_fixed. reflexivity. Qed.
+
+Theorem ruleset_total_now proxy def st e :
+  (forall rs, ev_parse e = PParsed rs -> forallb oracle_total_rule rs = true) ->
+  spec_rs_ok st (process all_fixes proxy def st e).
+Proof. intros. apply ruleset_total_fixed; auto. Qed.
+
+Theorem fs_total_now st e : spec_fs_ok st (fs_changed all_fixes st e).
+Proof. apply fs_total_fixed. reflexivity. Qed.
+
+Example reload_nonvacuous_now :
+  let leaf := {| c_id := 5; c_pub := 1; c_subj := "leaf"; c_iss := "ca"; c_aki := "cafe"; c_ski := "" |} in
+  let ca := {| c_id := 6; c_pub := 9; c_subj := "ca"; c_iss := "ca"; c_aki := ""; c_ski := "cafe" |} in
+  let i := in_of "second" [BKey (Some (KSig ECDSA 256 1 "aa")) ""; BCert (Some leaf); BCert (Some ca);
+                           BKey (Some (KSig RSA 3072 2 "bb")) "second"] in
+  on_changed Signer all_fixes st0 i =
+    Reloaded {| st_kid := "second"; st_alg := "PS384"; st_pub := Some 2;
+                st_keys := [("aa", "ES256"); ("second", "PS384")]%string; st_chain := [] |} /\
+  on_changed Tls all_fixes st0 (in_of "" [BKey (Some (KSig ECDSA 256 1 "aa")) ""; BCert (Some leaf); BCert (Some ca)]) =
+    Reloaded {| st_kid := ""; st_alg := ""; st_pub := Some 1; st_keys := []; st_chain := [5; 6] |}.
+Proof. vm_compute. split; reflexivity. Qed.
